@@ -952,3 +952,100 @@ func SxStripConv(v ssa.Value) ssa.Value {
 
 // Poly returns the polynomial normal form of an integer value (atoms are canonical sub-expressions).
 func (e *SxEnv) Poly(v ssa.Value) *Poly { return e.poly(v) }
+
+// EdgeGuardVals is EdgeGuards returning the guards as values (for arithmetic on their operands).
+func (e *SxEnv) EdgeGuardVals(phi *ssa.Phi, edgeSx string) ([]Guard, bool) {
+	b := phi.Block()
+	for i, ed := range phi.Edges {
+		if e.Of(ed) != edgeSx {
+			continue
+		}
+		pred := b.Preds[i]
+		var gs []Guard
+		for _, g := range Guards(pred) {
+			gs = append(gs, g.Normalize())
+		}
+		if ifi, ok := pred.Instrs[len(pred.Instrs)-1].(*ssa.If); ok && pred.Succs[0] != pred.Succs[1] {
+			gs = append(gs, Guard{Cond: ifi.Cond, True: pred.Succs[0] == b, If: ifi}.Normalize())
+		}
+		return gs, true
+	}
+	return nil, false
+}
+
+// AffineBounds derives lo <= atom <= hi from integer comparison guards whose two sides differ by
+// +-atom plus a constant (e.g. "atom - 15360 >= 2047" false).
+func (e *SxEnv) AffineBounds(gs []Guard, atom string) (lo, hi *int64) {
+	setLo := func(v int64) {
+		if lo == nil || v > *lo {
+			x := v
+			lo = &x
+		}
+	}
+	setHi := func(v int64) {
+		if hi == nil || v < *hi {
+			x := v
+			hi = &x
+		}
+	}
+	for _, g := range gs {
+		bo, ok := g.Cond.(*ssa.BinOp)
+		if !ok || !isIntType(bo.X.Type()) {
+			continue
+		}
+		d := e.poly(bo.X).Sub(e.poly(bo.Y)) // d OP 0
+		a := d.Coef(atom)
+		if (a != 1 && a != -1) || len(d.Atoms()) != 1 {
+			continue
+		}
+		c := d.Const()
+		// a*atom + c OP 0
+		op := bo.Op
+		if !g.True {
+			switch op {
+			case token.LSS:
+				op = token.GEQ
+			case token.LEQ:
+				op = token.GTR
+			case token.GTR:
+				op = token.LEQ
+			case token.GEQ:
+				op = token.LSS
+			case token.EQL:
+				op = token.NEQ
+			case token.NEQ:
+				op = token.EQL
+			}
+		}
+		if a == -1 {
+			// -atom + c OP 0  <=>  atom - c OP' 0
+			c = -c
+			switch op {
+			case token.LSS:
+				op = token.GTR
+			case token.LEQ:
+				op = token.GEQ
+			case token.GTR:
+				op = token.LSS
+			case token.GEQ:
+				op = token.LEQ
+			}
+		}
+		// atom + c OP 0  => atom OP -c
+		k := -c
+		switch op {
+		case token.LSS:
+			setHi(k - 1)
+		case token.LEQ:
+			setHi(k)
+		case token.GTR:
+			setLo(k + 1)
+		case token.GEQ:
+			setLo(k)
+		case token.EQL:
+			setLo(k)
+			setHi(k)
+		}
+	}
+	return
+}
